@@ -74,7 +74,7 @@ def main(argv=None):
         rep = json.load(open(args.replay))
         print(json.dumps(rep, indent=1)[:6000])
         args.only = rep.get('task_label')
-    tasks = [t for t in registry.all_tasks(args.tier) if prop in t.props or prop == 'ALL']
+    tasks = [t for t in registry.all_tasks(args.tier) if prop in t.effective_props or prop == 'ALL']
     if args.only:
         tasks = [t for t in tasks if args.only in t.label]
     if args.list:
